@@ -275,7 +275,7 @@ theorem run_documented (S : PrimKind → Prop) (hS : ∀ k, S k → LoopKind k) 
   intro P
   induction P with
   | ret v => intro cur w _ _; simp [run, Documented]
-  | crash e => intro cur w hc _; simpa [run, Documented] using hc
+  | crash e => intro cur w hc _; simp only [run, Documented]; exact hc
   | reraise => intro cur w _ _; simp [run, Documented]
   | caseErr z n p ihz ihn ihp =>
     intro cur w hc hw
@@ -381,5 +381,103 @@ theorem run_log (cfg : Cfg) (S : PrimKind → Prop) (hS : ∀ k, S k → LoopKin
       split
       · rename_i n _; exact iherr () n w' herr hl
       · exact hl
+
+end NfcVerif.Retry
+
+/-! ## the programs of the operations are clean -/
+namespace NfcVerif.Retry
+
+theorem fixF17_rep : Cfg.repaired.fixF17 = true := rfl
+
+macro "clean_tac" : tactic => `(tactic| repeat' (first
+  | exact trivial
+  | exact Or.inl rfl
+  | exact Or.inr rfl
+  | exact rfl
+  | decide
+  | apply chain_clean
+  | (show Clean _ _; dsimp only [fin])
+  ))
+
+theorem prog_clean (fam op : String) (l : Phases) (v : Val) (nret : Nat) (P : Prog)
+    (h : prog Cfg.repaired fam op l v nret = some P) (h4 : fam ≠ "t4") : Clean LoopKind P := by
+  unfold prog at h
+  simp only [fixF17_rep, if_true] at h
+  split at h <;> first
+    | exact absurd rfl h4
+    | (cases h; clean_tac)
+
+
+end NfcVerif.Retry
+
+namespace NfcVerif.Retry
+
+theorem prog_clean_t3 (fam op : String) (l : Phases) (v : Val) (nret : Nat) (P : Prog)
+    (h : prog Cfg.repaired fam op l v nret = some P) (hf : fam = "t3" ∨ fam = "t3std" ∨ fam = "lite") :
+    Clean (fun k => k = .t3) P := by
+  unfold prog at h
+  simp only [fixF17_rep, if_true] at h
+  split at h <;> first
+    | (exfalso; revert hf; decide)
+    | (cases h; clean_tac)
+
+section t3format
+variable (S : PrimKind → Prop) (h3 : S .t3) (cfg : Cfg) (t : T3Tag)
+include h3
+
+theorem t3Wipe_clean : ∀ n, Clean S (t3Wipe cfg t n) := by
+  intro n
+  induction n with
+  | zero => exact trivial
+  | succ n ih => unfold t3Wipe; exact ⟨h3, by decide, by decide, ih, trivial⟩
+
+theorem t3Nbw_clean (wipe : Bool) (nmaxb : Nat) : ∀ fuel nbw, Clean S (t3Nbw cfg t wipe nmaxb fuel nbw) := by
+  intro fuel
+  induction fuel with
+  | zero => intro _; exact trivial
+  | succ fuel ih =>
+    intro nbw
+    have hattr : Clean S (.call (t3p true) (wrTok 0 1) .ok .nothing
+        (fun _ => if wipe then t3Wipe cfg t nmaxb else .ret .true_) (fun _ => .reraise)) := by
+      refine ⟨h3, by decide, by decide, ?_, trivial⟩
+      show Clean S (if wipe = true then _ else _)
+      split
+      · exact t3Wipe_clean S h3 cfg t nmaxb
+      · exact trivial
+    unfold t3Nbw
+    simp only []
+    split
+    · exact hattr
+    · exact ⟨h3, by decide, by decide, ih _, hattr⟩
+
+theorem t3Nbr_clean (wipe : Bool) (nmaxb : Nat) : ∀ fuel nbr, Clean S (t3Nbr cfg t wipe nmaxb fuel nbr) := by
+  intro fuel
+  induction fuel with
+  | zero => intro _; exact trivial
+  | succ fuel ih =>
+    intro nbr
+    have hafter : Clean S (.call (t3p true) (rdTok 0 1) .ok .nothing
+        (fun _ => t3Nbw cfg t wipe nmaxb 14 1) (fun _ => .reraise)) :=
+      ⟨h3, by decide, by decide, t3Nbw_clean S h3 cfg t wipe nmaxb 14 1, trivial⟩
+    unfold t3Nbr
+    simp only []
+    split
+    · exact hafter
+    · exact ⟨h3, by decide, by decide, ih _, hafter⟩
+
+theorem t3Search_clean (wipe : Bool) : ∀ fuel lo hi, Clean S (t3Search cfg t wipe fuel lo hi) := by
+  intro fuel
+  induction fuel with
+  | zero => intro lo _; unfold t3Search; exact t3Nbr_clean S h3 cfg t wipe lo 16 1
+  | succ fuel ih =>
+    intro lo hi
+    unfold t3Search
+    split
+    · exact ⟨h3, by decide, by decide, ih _ _, ih _ _⟩
+    · exact t3Nbr_clean S h3 cfg t wipe lo 16 1
+
+theorem t3Format_clean (wipe : Bool) : Clean S (t3Format cfg t wipe) :=
+  ⟨h3, by decide, by decide, t3Search_clean S h3 cfg t wipe 17 0 0x10000, trivial⟩
+end t3format
 
 end NfcVerif.Retry
